@@ -5,6 +5,12 @@ V = os.path.dirname(os.path.abspath(__file__))
 props = {json.loads(l)["id"]: json.loads(l) for l in open(os.path.join(V, "properties.jsonl"))}
 
 CHECKS = {
+ "C01": dict(design="6/C01", technique="TLA+ spec TxWire.tla (serialiser + parser with marker detection): exhaustive TLC model of codec sessions and of a byte-fed parser, every model case replayed on the real code, trace validation (Trace_TxWire) of recorded Bytes/ExtendedBytes/TxID/Clone and of every decoding entry point",
+             text="TLC exhausts round trip, canonicity, prefix-freedom, truncation and list parsing on model transactions with lengths/counts on the 252/253 boundary and on all byte strings over a marker/varint alphabet up to a bound; the real codec is then bound to the same specification: every model case and thousands of generated, non-minimal, streamed, truncated and corpus inputs are executed and each result (acceptance, consumed bytes, fields, both re-serialisations, txid) is judged by TLC.",
+             note="Trusted: TLC, TxWire.tla as the definition of the format (marker rule mirrors Tx.ReadFrom), python hashlib for txid hashes."),
+ "C09": dict(design="6/C09", technique="TLA+ spec TxWire.tla parser + Trace_TxWire.TotalOK: trace validation of every decoding entry point on TLC-fed byte strings, random/truncated/bit-flipped inputs and crafted huge length/count fields, in a crash-isolated harness with allocation measurement",
+             text="The parser specification defines the only outcomes (value or error) and the consumed-bytes bound; TLC judges every recorded decode call of the real code (outcome, used <= len, measured allocation <= 64*len+256KiB). Panics and process deaths are events no action explains. Conformance of the code to a model-checked parser on enumerated adversarial inputs.",
+             note="Trusted: TLC, runtime.MemStats.TotalAlloc as the allocation sensor (measurement judged by the trace spec, not modelled), RLIMIT_AS 6 GiB + intent file to attribute process death."),
  "C17": dict(design="6/C17", technique="TLA+ spec BIP276.tla: exhaustive TLC model of encode/corrupt/decode sessions + TLC-generated cases replayed on the real code + trace validation (Trace_BIP276) of recorded Encode/Decode/ValidateAddress calls",
              text="TLC exhausts the session model (all records over boundary field values, every single-character corruption) for round trip, layout and rejection; every model case and 10^3..10^5 enumerated real calls are then judged by the same specification through trace validation. Bounded model checking of the design plus conformance of the code to it on the enumerated inputs.",
              note="Trusted: TLC, the BIP276 layout as written in BIP276.tla, python hashlib for the checksum oracle; SHA-256d treated as an uninterpreted function."),
